@@ -37,11 +37,12 @@ def mkStage (i : Nat) (cp pr eh : String) (req : Bool) (amp : Rat) : Stage Nat :
       | "lt50" => some fun x => .ok (x < 50)
       | _ => none
     -- "nest": the processor starts a run of its own cascade before returning; that run is a run of its own (see `run`)
-    processor := fun x => if pr = "ok" || pr = "nest" then .ok (x * 10 + i + 1) else if pr = "zero" then .ok 0 else .raise
+    processor := fun x => if pr = "ok" || pr = "nest" then .ok (x * 10 + i + 1) else if pr = "zero" then .ok 0 else if pr = "nil" then .ok 900001 else .raise   -- nil: the signal None, shown as 900001
     onError :=
       match eh with
       | "ok" => some fun _ => .ok (7000 + i)
       | "zero" => some fun _ => .ok 0              -- a falsy signal is a signal
+      | "nil" => some fun _ => .ok 900001          -- so is None
       | "raise" => some fun _ => .raise
       | "raise0" => some fun _ => .raise
       | _ => none
